@@ -41,9 +41,12 @@ def run_case(arg):
     # the same counts in several storage types, incl. non-native byte order (what big-endian files give); float32
     # big-endian is left out (torch.tensor refuses it on every tree)
     store_dt = [np.float32, "<u2", ">u2", ">f8", np.int32, ">i4", np.float64][idx % 7]
-    data = np.array(case["data"], dtype=np.float64).reshape(sr, sc, dr, dc).astype(store_dt)
+    # the centre of mass does not depend on the intensity scale (ScaleFree): float storage types also carry the counts
+    # multiplied by an exact power of two, so that whole patterns sum to far less / far more than one
+    scale = (1.0, 2.0 ** -14, 2.0 ** 9, 2.0 ** -6)[(idx // 7) % 4] if np.dtype(store_dt).kind == "f" else 1.0
+    data = (np.array(case["data"], dtype=np.float64).reshape(sr, sc, dr, dc) * scale).astype(store_dt)
     com = np.array([[c[0][0] / c[0][1], c[1][0] / c[1][1]] for c in case["com"]])   # (n, 2) row, col
-    tag = f"scan={sr}x{sc} det={dr}x{dc} dtype={np.dtype(store_dt).str} case={idx}"
+    tag = f"scan={sr}x{sc} det={dr}x{dc} dtype={np.dtype(store_dt).str} scale={scale:g} case={idx}"
 
     def bad(key, msg):
         out.append((key, f"{tag}: {msg}"))
@@ -140,7 +143,7 @@ def run_case(arg):
                 ref = ref or cur
             # 5. integer origin -> corner is the circular roll
             ro = np.array(case["rollOrigins"], dtype=float)
-            rolled = np.array(case["rolled"], dtype=np.float32).reshape(sr, sc, dr, dc)
+            rolled = (np.array(case["rolled"], dtype=np.float64).reshape(sr, sc, dr, dc) * scale).astype(np.float32)
             for bi, bsz in enumerate([None] + list(range(1, n + 1)) + [n + 3]):      # every batch size, incl. non-dividing ones
                 om = CenterOfMassOriginModel.from_dataset(ds, device="cpu")
                 # the object's earlier life must not matter: nothing / a constant fit / a plane fit / a constant fit and
@@ -154,7 +157,7 @@ def run_case(arg):
                 om.origin_fitted = torch.tensor(ro, dtype=torch.float)
                 om.shift_origin_to((0, 0), max_batch_size=bsz)
                 sh = om.shifted_tensor.detach().cpu().numpy().reshape(sr, sc, dr, dc)
-                if np.abs(sh - rolled).max() > 1e-3:
+                if np.abs(sh - rolled).max() > 1e-3 * scale:
                     bad("C18:origin-model:shift-roll", f"batch {bsz} (prior steps variant {prior}): max deviation from the roll "
                                                        f"{np.abs(sh - rolled).max():.4f}")
                     break
